@@ -9,10 +9,12 @@ from bounded import refproc as rp
 FCS = np.array([1.0, 2.0, 4.0, 8.0, 16.0])
 
 
-def mk_settings(kind, width, fft=None, azs=None):
+def mk_settings(kind, width, fft=None, azs=None, policy=None):
     import hvsrpy
     sm = dict(operator="konno_and_ohmachi", bandwidth=30., center_frequencies_in_hz=FCS.copy())
     kw = dict(window_type_and_width=["tukey", width], smoothing=sm, fft_settings=fft)
+    if policy is not None:
+        kw["handle_dissimilar_time_steps_by"] = policy
     if kind in rp.ALIASES:
         return hvsrpy.HvsrTraditionalProcessingSettings(method_to_combine_horizontals=kind, **kw)
     if kind == "single_azimuth":
@@ -54,10 +56,19 @@ def side_effect_clause(cl, rng, n, replay):
         L = int(rng.integers(1, 4))
         N = int(rng.integers(60, 200))
         raws = [rp.gen_window(rng, N=N, dt=0.01, scale=1.0) for _ in range(L)]
+        policy = None
+        if kind != "psd" and (j // len(KINDS)) % 2 == 1:
+            # recordings with different time steps under each of the three policies: recordings that are dropped, and those that are kept, stay as they were
+            policy = ["frequency_domain_resampling", "keeping_smallest_time_step", "keeping_majority_time_step"][(j // (2 * len(KINDS))) % 3]
+            if kind == "diffuse_field" and policy == "frequency_domain_resampling":
+                policy = "keeping_majority_time_step"          # diffuse-field processing refuses mixed steps otherwise
+            pattern = [(0.01, 0.02, 0.01), (0.02, 0.01, 0.01), (0.01, 0.01, 0.02, 0.005)][j % 3]
+            raws = [rp.gen_window(rng, N=N, dt=d, scale=1.0) for d in pattern]
+            L = len(raws)
         recs = [rp.mk_record(*r, degrees_from_north=float(rng.choice([0., 20.])), meta={"file name(s)": ["a.mseed", "b.mseed"], "tag": {"k": [1, 2]}}) for r in raws]
         width = float(rng.choice([0.1, 0.3, 1.0]))
         azs = [None, np.array([0., 90.]), np.array([0., 35., 90., 140.]), np.array([20., 65.])][j % 4]
-        s = mk_settings(kind, width, azs=azs)
+        s = mk_settings(kind, width, azs=azs, policy=policy)
         snaps = [rp.snapshot_record(r) for r in recs]
         ids = [id(r) for r in recs]
         try:
@@ -65,10 +76,10 @@ def side_effect_clause(cl, rng, n, replay):
         except Exception as ex:
             cl.fail(f"hvsrpy.processing.process[{kind}]", f"{type(ex).__name__}: {ex}", signature="c09:exception")
             return
-        cl.case((j, kind, L, N, width))
+        cl.case((j, kind, L, N, width, policy))
         if [id(r) for r in recs] != ids or any(not rp.same_snapshot(a, rp.snapshot_record(r)) for a, r in zip(snaps, recs)):
-            cl.fail(f"hvsrpy.processing.process[{kind}]", "process() changed the recordings it was given (samples, time step, orientation or metadata)",
-                    signature=f"c09:frame:{kind}", azimuths=azs)
+            cl.fail(f"hvsrpy.processing.process[{kind}]", "process() changed the recordings it was given (samples, time step, orientation or metadata)"
+                    + (f" [mixed time steps, {policy}]" if policy else ""), signature=f"c09:frame:{kind}", azimuths=azs, policy=policy)
             return
         v1, m1 = values(r1).copy(), meta_of(r1)
         r2 = hvsrpy.process(recs, s)
@@ -142,7 +153,7 @@ def known_f15(cl, rng, n, replay):
 
 CLAUSES = [
     ("bounded:process() leaves the recordings untouched, is repeatable, result independent of later edits (all methods)", "bounded",
-     "11 methods x 1-3 windows x 3 tapers x 4 azimuth sets; deep snapshots of records; mutation of records/settings after the call", "hvsrpy.processing.process", (44, 880), side_effect_clause),
+     "11 methods x 1-3 windows x 3 tapers x 4 azimuth sets; every other round with 3-4 recordings of mixed time steps under the three policies; deep snapshots of records (samples, per-component time step, orientation, metadata); mutation of records/settings after the call", "hvsrpy.processing.process", (66, 880), side_effect_clause),
     ("bounded:interleaved calls - no hidden state between calls", "bounded", "36 jobs (3 lengths x 6 methods x 2 tapers) in random orders", "hvsrpy.processing.process", (20, 100), interleaved_clause),
     ("bounded:repeatability with fft_settings={'n': None} (F-15 state)", "bounded", "one constructed call sequence", "hvsrpy.processing.prepare_fft_settings", (1, 1), known_f15),
 ]
